@@ -4,8 +4,8 @@
    effect; it returns the events sent (in send order), the new state, and whether a handler
    panicked (unwinding).  The mechanism: the queue is a Vec used as a stack (top at the END);
    the events pushed during one delivery are the segment [events_before..], which is reversed
-   before the next pop.  On unwinding, [unwind] (EventDropper::drop) receives what is left. *)
-From Coq Require Import List Lia PeanoNat Arith.
+   before the next pop.  On unwinding, [unwind] (EventDropper::drop) receives what is lft. *)
+From Coq Require Import List Lia PeanoNat Arith Permutation.
 Import ListNotations.
 
 Section Loop.
@@ -135,5 +135,77 @@ Proof.
     destruct ab.
     + inversion H; subst. exists (rev r), e, sent, st1, st. auto.
     + eapply IH; eauto.
+Qed.
+
+(* ---------- conservation: nothing is lost, nothing is delivered twice ---------- *)
+(* ghost-instrumented machine: additionally returns everything that was sent during the run
+   and what was handed to [unwind] *)
+Fixpoint flushG (fuel : nat) (q : list Ev) (st : St) : option (list Ev * St * outcome * list Ev * list Ev) :=
+  match fuel with
+  | 0 => None
+  | S f => match step q st with
+           | None => Some ([], st, Finished, [], [])
+           | Some (e, q', st', ab) =>
+               let sent := fst (fst (run e st)) in
+               if ab then Some ([e], unwind q' st', Aborted, sent, q')
+               else match flushG f q' st' with
+                    | Some (tr, st2, oc, allsent, lft) => Some (e :: tr, st2, oc, sent ++ allsent, lft)
+                    | None => None
+                    end
+           end
+  end.
+
+Lemma flushG_flush : forall n q st acc,
+  flush n q st acc = match flushG n q st with
+                     | Some (tr, st', oc, _, _) => Some (acc ++ tr, st', oc)
+                     | None => None end.
+Proof.
+  induction n as [|n IH]; intros q st acc; [reflexivity|]. cbn [flush flushG].
+  destruct (step q st) as [[[[e q'] st'] ab]|]; [|now rewrite app_nil_r].
+  destruct ab; [reflexivity|]. rewrite IH.
+  destruct (flushG n q' st') as [[[[[tr st2] oc] al] lf]|]; [|reflexivity].
+  now rewrite <- app_assoc.
+Qed.
+
+Theorem flush_conservation : forall n q st tr st' oc allsent lft,
+  flushG n q st = Some (tr, st', oc, allsent, lft) ->
+  Permutation (q ++ allsent) (tr ++ lft) /\ (oc = Finished -> lft = []).
+Proof.
+  induction n as [|n IH]; intros q st tr st' oc allsent lft H; [discriminate|].
+  cbn [flushG] in H. destruct (rev q) as [|e r] eqn:Er.
+  - assert (q = []) by (destruct q as [|x q]; [reflexivity|]; cbn in Er; destruct (rev q); discriminate).
+    subst q. cbn in H. inversion H; subst. split; [constructor|reflexivity].
+  - assert (Hq : q = rev r ++ [e]) by (rewrite <- (rev_involutive q), Er; reflexivity).
+    rewrite Hq, step_snoc in H. destruct (run e st) as [[sent st1] ab] eqn:Hrun. rewrite ?Hrun in H. cbn [fst] in H.
+    destruct ab.
+    + inversion H; subst. split; [|discriminate].
+      rewrite <- !app_assoc. cbn [app]. apply Permutation_sym, Permutation_middle.
+    + destruct (flushG n (rev r ++ rev sent) st1) as [[[[[tr2 st2] oc2] al] lf]|] eqn:Hg; [|discriminate].
+      inversion H; subst. destruct (IH _ _ _ _ _ _ _ Hg) as [HP HF]. split; [|exact HF].
+      rewrite <- !app_assoc. cbn [app].
+      apply Permutation_trans with (e :: rev r ++ sent ++ al); [apply Permutation_sym, Permutation_middle|].
+      constructor. rewrite <- app_assoc in HP.
+      apply Permutation_trans with (rev r ++ rev sent ++ al); [|exact HP].
+      apply Permutation_app_head, Permutation_app_tail, Permutation_rev.
+Qed.
+
+(* with pairwise distinct event identities: each event that was queued or sent is delivered
+   exactly once or handed to the dropper exactly once, never both *)
+Corollary flush_exactly_once n q st tr st' oc allsent lft :
+  flushG n q st = Some (tr, st', oc, allsent, lft) -> NoDup (q ++ allsent) -> NoDup (tr ++ lft).
+Proof. intros H Hnd. eapply Permutation_NoDup; [apply (proj1 (flush_conservation _ _ _ _ _ _ _ _ H))|exact Hnd]. Qed.
+
+(* an observation of the state that no delivery and no unwinding changes is unchanged by the
+   whole run *)
+Theorem flush_preserves {T} (pi : St -> T) :
+  (forall e st, pi (snd (fst (run e st))) = pi st) -> (forall q st, pi (unwind q st) = pi st) ->
+  forall n q st acc tr st' oc, flush n q st acc = Some (tr, st', oc) -> pi st' = pi st.
+Proof.
+  intros Hr Hu. induction n as [|n IH]; intros q st acc tr st' oc H; [discriminate|].
+  cbn [flush] in H. unfold step in H. destruct (rev q) as [|e r]; [inversion H; reflexivity|].
+  specialize (Hr e st). destruct (run e st) as [[sent st1] ab]. cbn [fst snd] in Hr.
+  destruct ab.
+  - inversion H; subst. now rewrite Hu.
+  - apply IH in H. now rewrite H.
 Qed.
 End Loop.
